@@ -1,12 +1,15 @@
 (* C17 — authorisation on every route a message can take.  A routing model of server.go over a
    permission relation [perm] (the answer of Hooks.OnACLCheck for a client id, a topic or filter, and
    read/write; a Section variable, so every theorem holds for ALL permission relations): the publish
-   path (processPublish: wildcard / $SYS refusal, write check, retain, fan-out), the delivery path
-   (publishToClient: read check at delivery time, also for retained replay and for messages queued for
-   an offline session), the subscribe path (processSubscribe: 0x8F / 0x87 / 0x80, creation, retained
-   replay), the will paths (validateConnect, sendLWT after fix 411d180, sendDelayedLWT), session
-   resumption (inheritClientSession + ResendInflightMessages) and the inline client.  Specification
-   (from the property text), monitors and the two engines [auth] and [subinvalid].  No proofs here. *)
+   path (processPublish: wildcard / $SYS refusal, write check, QoS 2 packet-id check, topic-alias
+   resolution AFTER the checks, retain, fan-out), the delivery path (publishToSubscribers with shared
+   subscription groups and No-Local, publishToClient: read check at delivery time, also for retained
+   replay and for messages in flight to an offline session), the subscribe path (processSubscribe:
+   0x8F / 0x82 / 0x87 / 0x80, creation, retained replay), the will paths (validateConnect, sendLWT after
+   fix 411d180, sendDelayedLWT, the will of a connection that is taken over), session resumption and
+   takeover (inheritClientSession + ResendInflightMessages), session expiry (clearExpiredClients), the
+   inbound QoS 2 exchange (PUBREC / PUBREL) and the inline client.  Specification (from the property
+   text), monitors and the two engines [auth] and [subinvalid].  No proofs here. *)
 From MV Require Import Base.Val Topics.Levels Topics.Match Hooks.Chain.
 Open Scope N_scope.
 
@@ -15,24 +18,34 @@ Record msg := mkM { m_origin : option client;      (* None = the inline client /
 Record will := mkW { w_topic : bytes; w_payload : bytes; w_qos : N; w_retain : bool; w_delay : bool }.
 (* a session known to the broker (an entry of Server.Clients) *)
 Record sess := mkC { c_ver : N; c_online : bool; c_persist : bool; c_will : option will;
-                     c_queue : list msg }.          (* QoS > 0 messages in flight towards an offline session *)
+                     c_queue : list msg;            (* QoS > 0 messages in flight towards an offline session *)
+                     c_alias : list (N * bytes);    (* inbound topic aliases of the connection *)
+                     c_inq2 : list N }.             (* packet ids of inbound QoS 2 publishes awaiting PUBREL *)
+
+(* a subscription: client, (filter as subscribed — with its $share/group/ prefix —, (qos, No-Local)) *)
+Definition subent := (client * (bytes * (N * bool)))%type.
+Definition se_filter (e : subent) : bytes := fst (snd e).
+Definition se_qos (e : subent) : N := fst (snd (snd e)).
+Definition se_nl (e : subent) : bool := snd (snd (snd e)).
 
 Record ast := mkAst {
   a_cl : list (client * sess);
-  a_subs : list (client * (bytes * N));             (* topic index: client, filter, granted qos *)
+  a_subs : list subent;                             (* topic index *)
   a_ret : list (bytes * msg);                       (* retained store *)
   a_delayed : list (client * msg) }.                (* Server.loop.willDelayed *)
 Definition a_init : ast := mkAst [] [] [] [].
 
 Inductive aop :=
-| AConnect (cl : client) (ver : N) (clean : bool) (w : option will)   (* a client id that is not connected *)
+| AConnect (cl : client) (ver : N) (clean : bool) (w : option will)   (* also while the id is connected: takeover *)
 | ADisconnect (cl : client)                                           (* DISCONNECT packet, reason 0x00 *)
 | ADisconnectWill (cl : client)                                       (* MQTT 5 DISCONNECT with reason 0x04 *)
 | ANetClose (cl : client)                                             (* the network connection drops *)
-| APublish (cl : client) (topic payload : bytes) (qos : N) (retain : bool) (pid : N)
-| ASubscribe (cl : client) (pid : N) (fs : list (bytes * N))
+| APublish (cl : client) (topic payload : bytes) (qos : N) (retain : bool) (pid : N) (alias : N)   (* alias 0 = none *)
+| APubrel (cl : client) (pid : N)
+| ASubscribe (cl : client) (pid : N) (fs : list (bytes * (N * bool)))
 | AInline (topic payload : bytes) (retain : bool)                     (* Server.Publish *)
-| ATick.                                                              (* sendDelayedLWT, every delayed will is due *)
+| ATick                                                               (* sendDelayedLWT, every delayed will is due *)
+| AExpire.                                                            (* clearExpiredClients, every offline session is due *)
 
 Inductive aev :=
 | AConnack (ok sp : bool)
@@ -41,33 +54,52 @@ Inductive aev :=
 | ASuback (pid : N) (codes : list N)
 | AClosed.
 
+Definition T_PUBCOMP := 7.
+Definition memN (x : N) (l : list N) : bool := existsb (N.eqb x) l.
+Fixpoint alias_get (a : N) (l : list (N * bytes)) : option bytes :=
+  match l with [] => None | (k, t) :: r => if a =? k then Some t else alias_get a r end.
+Definition alias_set (a : N) (t : bytes) (l : list (N * bytes)) : list (N * bytes) :=
+  (a, t) :: filter (fun e => negb (a =? fst e)) l.
+
 Section Acl.
 Variable perm : client -> bytes -> bool -> bool.      (* OnACLCheck cl topic write *)
-Variable matches : bytes -> bytes -> bool.            (* does the filter match the topic name *)
+Variable matches : bytes -> bytes -> bool.            (* does the (plain) filter match the topic name *)
 Variable valid_filter : bytes -> bool.                (* IsValidFilter(filter, false) *)
+Variable is_shared : bytes -> bool.                   (* IsSharedFilter *)
+Variable eff : bytes -> bytes.                        (* the filter behind $share/<group>/ *)
 
 Definition has_wild (t : bytes) : bool := has 43 t || has 35 t.
+Definition eff_of (f : bytes) : bytes := if is_shared f then eff f else f.
+Definition origin_is (c : client) (m : msg) : bool :=
+  match m_origin m with Some o => beq_bytes o c | None => false end.
 
-(* the subscriptions of c that match t *)
-Definition matching (subs : list (client * (bytes * N))) (c : client) (t : bytes) : list (client * (bytes * N)) :=
-  filter (fun e => beq_bytes (fst e) c && matches (fst (snd e)) t) subs.
-Definition maxq (l : list (client * (bytes * N))) : N := fold_right (fun e a => N.max (snd (snd e)) a) 0 l.
+(* [sel f c]: in this fan-out member c is the one chosen for the share group of filter f (SelectShared
+   takes whichever member Go's map iteration yields first: an oracle) *)
+Definition sub_hits (sel : bytes -> client -> bool) (t : bytes) (e : subent) : bool :=
+  if is_shared (se_filter e) then matches (eff (se_filter e)) t && sel (se_filter e) (fst e)
+  else matches (se_filter e) t.
+(* the subscriptions of c through which topic t reaches it (Subscribers + MergeSharedSelected) *)
+Definition matching (sel : bytes -> client -> bool) (subs : list subent) (c : client) (t : bytes) : list subent :=
+  filter (fun e => beq_bytes (fst e) c && sub_hits sel t e) subs.
+Definition maxq (l : list subent) : N := fold_right (fun e a => N.max (se_qos e) a) 0 l.
 
 Definition enqueue (s : sess) (m : msg) : sess :=
-  mkC (c_ver s) (c_online s) (c_persist s) (c_will s) (c_queue s ++ [m]).
+  mkC (c_ver s) (c_online s) (c_persist s) (c_will s) (c_queue s ++ [m]) (c_alias s) (c_inq2 s).
 
-(* publishToSubscribers / publishToClient over every session: read check at delivery time; an offline
-   session keeps a QoS > 0 message in flight *)
-Fixpoint fanout (subs : list (client * (bytes * N))) (m : msg) (cls : list (client * sess))
+(* publishToSubscribers / publishToClient over every session: No-Local (merged: any matching
+   subscription asking for it), read check at delivery time; an offline session keeps a QoS > 0
+   message in flight *)
+Fixpoint fanout (sel : bytes -> client -> bool) (subs : list subent) (m : msg) (cls : list (client * sess))
   : list (client * sess) * list (client * aev) :=
   match cls with
   | [] => ([], [])
   | (c, s) :: r =>
-      let '(r', evs) := fanout subs m r in
-      match matching subs c (m_topic m) with
+      let '(r', evs) := fanout sel subs m r in
+      match matching sel subs c (m_topic m) with
       | [] => ((c, s) :: r', evs)
       | ms =>
-          if negb (perm c (m_topic m) false) then ((c, s) :: r', evs)
+          if existsb se_nl ms && origin_is c m then ((c, s) :: r', evs)
+          else if negb (perm c (m_topic m) false) then ((c, s) :: r', evs)
           else if c_online s then ((c, s) :: r', (c, ADeliver m) :: evs)
           else if 0 <? N.min (m_qos m) (maxq ms) then ((c, enqueue s m) :: r', evs)
           else ((c, s) :: r', evs)
@@ -79,97 +111,126 @@ Definition retain (ret : list (bytes * msg)) (m : msg) : list (bytes * msg) :=
   if nilb (m_payload m) then remove_key (m_topic m) ret else (m_topic m, m) :: remove_key (m_topic m) ret.
 
 (* retain (if flagged) and fan out *)
-Definition route (st : ast) (m : msg) : ast * list (client * aev) :=
+Definition route (sel : bytes -> client -> bool) (st : ast) (m : msg) : ast * list (client * aev) :=
   let ret' := if m_retain m then retain (a_ret st) m else a_ret st in
-  let '(cls', evs) := fanout (a_subs st) m (a_cl st) in
+  let '(cls', evs) := fanout sel (a_subs st) m (a_cl st) in
   (mkAst cls' (a_subs st) ret' (a_delayed st), evs).
 
-(* the end of a connection: a persistent session stays (offline, will consumed), any other is removed
-   together with its subscriptions *)
+(* the end of a connection: a persistent session stays (offline; will, aliases consumed), any other is
+   removed together with its subscriptions *)
 Definition end_session (st : ast) (cl : client) : ast :=
   match assoc cl (a_cl st) with
   | None => st
   | Some s =>
       if c_persist s then
-        mkAst ((cl, mkC (c_ver s) false true None (c_queue s)) :: remove_key cl (a_cl st)) (a_subs st) (a_ret st) (a_delayed st)
+        mkAst ((cl, mkC (c_ver s) false true None (c_queue s) [] (c_inq2 s)) :: remove_key cl (a_cl st))
+              (a_subs st) (a_ret st) (a_delayed st)
       else mkAst (remove_key cl (a_cl st)) (remove_key cl (a_subs st)) (a_ret st) (a_delayed st)
   end.
 
-(* sendLWT (after fix 411d180): a will is a publish by the client *)
-Definition send_will (st : ast) (cl : client) : ast * list (client * aev) :=
+(* sendLWT (after fix 411d180) for the will [w] of a connection of client id [cl]: a will is a publish by the client *)
+Definition publish_will (sel : bytes -> client -> bool) (st : ast) (cl : client) (w : option will)
+  : ast * list (client * aev) :=
+  match w with
+  | Some w =>
+      if valid_pub_topic (w_topic w) && perm cl (w_topic w) true then
+        let m := mkM (Some cl) (w_topic w) (w_payload w) (w_qos w) (w_retain w) in
+        if w_delay w then (mkAst (a_cl st) (a_subs st) (a_ret st) ((cl, m) :: remove_key cl (a_delayed st)), [])
+        else route sel st m
+      else (st, [])
+  | None => (st, [])
+  end.
+Definition send_will (sel : bytes -> client -> bool) (st : ast) (cl : client) : ast * list (client * aev) :=
   match assoc cl (a_cl st) with
-  | Some s =>
-      match c_will s with
-      | Some w =>
-          if valid_pub_topic (w_topic w) && perm cl (w_topic w) true then
-            let m := mkM (Some cl) (w_topic w) (w_payload w) (w_qos w) (w_retain w) in
-            if w_delay w then (mkAst (a_cl st) (a_subs st) (a_ret st) ((cl, m) :: remove_key cl (a_delayed st)), [])
-            else route st m
-          else (st, [])
-      | None => (st, [])
-      end
+  | Some s => publish_will sel st cl (c_will s)
   | None => (st, [])
   end.
 
 (* a connection that ends with an error: will, then the session ends *)
-Definition close_with_will (st : ast) (cl : client) : ast * list (client * aev) :=
-  let '(st1, evs) := send_will st cl in (end_session st1 cl, (cl, AClosed) :: evs).
+Definition close_with_will (sel : bytes -> client -> bool) (st : ast) (cl : client) : ast * list (client * aev) :=
+  let '(st1, evs) := send_will sel st cl in (end_session st1 cl, (cl, AClosed) :: evs).
 
 (* processSubscribe, one reason code per filter *)
-Fixpoint sub_codes (ver : N) (obscure : bool) (cl : client) (fs : list (bytes * N)) : list N * list (bytes * N) :=
+Fixpoint sub_codes (ver : N) (obscure : bool) (cl : client) (fs : list (bytes * (N * bool)))
+  : list N * list (bytes * (N * bool)) :=
   match fs with
   | [] => ([], [])
-  | (f, q) :: r =>
+  | (f, (q, nl)) :: r =>
       let '(codes, gr) := sub_codes ver obscure cl r in
       if negb (valid_filter f) then (v3map ver 143 :: codes, gr)                           (* 0x8F *)
+      else if nl && is_shared f then (v3map ver 130 :: codes, gr)                          (* 0x82 *)
       else if negb (perm cl f false) then (v3map ver (if obscure then 128 else 135) :: codes, gr)
-      else (v3map ver q :: codes, (f, q) :: gr)
+      else (v3map ver q :: codes, (f, (q, nl)) :: gr)
   end.
 
-Fixpoint add_sub (cl : client) (fs : list (bytes * N)) (subs : list (client * (bytes * N))) : list (client * (bytes * N)) :=
+Fixpoint add_sub (cl : client) (fs : list (bytes * (N * bool))) (subs : list subent) : list subent :=
   match fs with
   | [] => subs
-  | (f, q) :: r =>      (* in packet order: a filter repeated within one SUBSCRIBE keeps its last options *)
-      add_sub cl r ((cl, (f, q)) :: filter (fun e => negb (beq_bytes (fst e) cl && beq_bytes (fst (snd e)) f)) subs)
+  | (f, o) :: r =>      (* in packet order: a filter repeated within one SUBSCRIBE keeps its last options *)
+      add_sub cl r ((cl, (f, o)) :: filter (fun e => negb (beq_bytes (fst e) cl && beq_bytes (se_filter e) f)) subs)
   end.
 
-(* publishRetainedToClient: read check at delivery time *)
-Definition replay_one (cl : client) (f : bytes) (ret : list (bytes * msg)) : list (client * aev) :=
-  map (fun e => (cl, ADeliver (snd e))) (filter (fun e => matches f (fst e) && perm cl (fst e) false) ret).
-Definition replay_granted (cl : client) (gr : list (bytes * N)) (ret : list (bytes * msg)) : list (client * aev) :=
-  flat_map (fun fq => replay_one cl (fst fq) ret) gr.
+(* publishRetainedToClient: not for shared filters; No-Local and the read check at delivery time *)
+Definition replay_one (cl : client) (f : bytes) (nl : bool) (ret : list (bytes * msg)) : list (client * aev) :=
+  if is_shared f then []
+  else map (fun e => (cl, ADeliver (snd e)))
+           (filter (fun e => matches f (fst e) && negb (nl && origin_is cl (snd e)) && perm cl (fst e) false) ret).
+Definition replay_granted (cl : client) (gr : list (bytes * (N * bool))) (ret : list (bytes * msg)) : list (client * aev) :=
+  flat_map (fun fo => replay_one cl (fst fo) (snd (snd fo)) ret) gr.
 
-(* sendDelayedLWT: publish; retain only if the session still exists *)
-Fixpoint fire (st : ast) (ds : list (client * msg)) : ast * list (client * aev) :=
+Definition clear_will (cls : list (client * sess)) (c : client) : list (client * sess) :=
+  map (fun e => if beq_bytes (fst e) c
+                then (fst e, mkC (c_ver (snd e)) (c_online (snd e)) (c_persist (snd e)) None (c_queue (snd e))
+                                 (c_alias (snd e)) (c_inq2 (snd e)))
+                else e) cls.
+
+(* sendDelayedLWT: publish; if a session of that id (still or again) exists: retain, and that session's
+   own will is wiped (cl.Properties.Will = Will{} hits the connection that took over, see C16) *)
+Fixpoint fire (sel : bytes -> client -> bool) (st : ast) (ds : list (client * msg)) : ast * list (client * aev) :=
   match ds with
   | [] => (st, [])
   | (c, m) :: r =>
-      let '(cls', evs) := fanout (a_subs st) m (a_cl st) in
+      let '(cls', evs) := fanout sel (a_subs st) m (a_cl st) in
       let ret' := match assoc c (a_cl st) with
                   | Some _ => if m_retain m then retain (a_ret st) m else a_ret st
                   | None => a_ret st end in
-      let '(st', evs') := fire (mkAst cls' (a_subs st) ret' (a_delayed st)) r in
+      let '(st', evs') := fire sel (mkAst (clear_will cls' c) (a_subs st) ret' (a_delayed st)) r in
       (st', evs ++ evs')
   end.
 
 Definition online (st : ast) (cl : client) : option sess :=
   match assoc cl (a_cl st) with Some s => if c_online s then Some s else None | None => None end.
 
-Definition astep (obscure : bool) (st : ast) (o : aop) : ast * list (client * aev) :=
+Definition set_sess (st : ast) (cl : client) (s : sess) : ast :=
+  mkAst ((cl, s) :: remove_key cl (a_cl st)) (a_subs st) (a_ret st) (a_delayed st).
+
+Definition astep (obscure : bool) (sel : bytes -> client -> bool) (st : ast) (o : aop) : ast * list (client * aev) :=
   match o with
   | AConnect cl ver clean w =>
       (* validateConnect (after fix 411d180): the will topic must be a topic name a client may publish to *)
       if match w with Some w' => negb (valid_pub_topic (w_topic w')) | None => false end then
         (st, [(cl, AConnack false false); (cl, AClosed)])
       else
-        (* inheritClientSession + ResendInflightMessages; the delayed will of this id is cancelled *)
+        (* inheritClientSession + ResendInflightMessages; the delayed will of this id is cancelled; a
+           connection of the same id that is still open is closed and — afterwards — publishes its will *)
         let old := assoc cl (a_cl st) in
-        let sp := match old with Some _ => negb clean | None => false end in
+        let sp := match old with
+                  | Some s => negb clean && negb (negb (c_persist s) && (c_ver s <? 5))
+                  | None => false end in
         let queue := match old with Some s => if sp then c_queue s else [] | None => [] end in
+        let inq2 := match old with Some s => if sp then c_inq2 s else [] | None => [] end in
         let subs' := if sp then a_subs st else remove_key cl (a_subs st) in
-        (mkAst ((cl, mkC ver true (negb clean) w []) :: remove_key cl (a_cl st)) subs' (a_ret st)
-               (remove_key cl (a_delayed st)),
-         (cl, AConnack true sp) :: map (fun m => (cl, ADeliver m)) queue)
+        let st1 := mkAst ((cl, mkC ver true (negb clean) w [] [] inq2) :: remove_key cl (a_cl st)) subs' (a_ret st)
+                         (remove_key cl (a_delayed st)) in
+        let evs1 := (cl, AConnack true sp) :: map (fun m => (cl, ADeliver m)) queue
+                    ++ map (fun pid => (cl, AAck T_PUBREC pid 0)) inq2 in
+        match old with
+        | Some s =>
+            if c_online s then
+              let '(st2, evs2) := publish_will sel st1 cl (c_will s) in (st2, evs1 ++ (cl, AClosed) :: evs2)
+            else (st1, evs1)
+        | None => (st1, evs1)
+        end
   | ADisconnect cl =>
       match online st cl with
       | None => (st, [])
@@ -180,22 +241,44 @@ Definition astep (obscure : bool) (st : ast) (o : aop) : ast * list (client * ae
   | ANetClose cl | ADisconnectWill cl =>                    (* Read ends with an error: sendLWT, then the session ends *)
       match online st cl with
       | None => (st, [])
-      | Some _ => close_with_will st cl
+      | Some _ => close_with_will sel st cl
       end
-  | APublish cl topic payload qos rt pid =>
+  | APublish cl topic payload qos rt pid alias =>
       match online st cl with
       | None => (st, [])
       | Some s =>
-          if has_wild topic then close_with_will st cl                               (* PublishValidate *)
+          if has_wild topic || (nilb topic && (alias =? 0)) then close_with_will sel st cl  (* PublishValidate *)
           else if negb (valid_pub_topic topic) then                                  (* $SYS *)
             (st, if qos =? 0 then [] else [(cl, AAck (ack_ty qos) pid 144)])
-          else if negb (perm cl topic true) then
+          else if negb (perm cl topic true) then          (* asked about the topic IN THE PACKET ("" for alias-only) *)
             if qos =? 0 then (st, [])
-            else if negb (c_ver s =? 5) then close_with_will st cl                   (* DisconnectClient 0x87 *)
+            else if negb (c_ver s =? 5) then close_with_will sel st cl               (* DisconnectClient 0x87 *)
             else (st, [(cl, AAck (ack_ty qos) pid 135)])
+          else if (0 <? qos) && memN pid (c_inq2 s) then                             (* unreleased QoS 2 id: 0x91 *)
+            (st, [(cl, AAck T_PUBREC pid 145)])
           else
-            let '(st', evs) := route st (mkM (Some cl) topic payload qos rt) in
-            (st', (if qos =? 0 then [] else [(cl, AAck (ack_ty qos) pid 0)]) ++ evs)
+            (* Inbound.Set: a packet with topic and alias (re)binds, an alias-only packet resolves *)
+            let resolved := if alias =? 0 then Some topic
+                            else if nilb topic then alias_get alias (c_alias s) else Some topic in
+            match resolved with
+            | None => close_with_will sel st cl                                      (* 0x94 alias never bound *)
+            | Some t =>
+                let al' := if (0 <? alias) && negb (nilb topic) then alias_set alias topic (c_alias s) else c_alias s in
+                let q2' := if qos =? 2 then pid :: c_inq2 s else c_inq2 s in
+                let st0 := set_sess st cl (mkC (c_ver s) true (c_persist s) (c_will s) (c_queue s) al' q2') in
+                let '(st', evs) := route sel st0 (mkM (Some cl) t payload qos rt) in
+                (st', (if qos =? 0 then [] else [(cl, AAck (ack_ty qos) pid 0)]) ++ evs)
+            end
+      end
+  | APubrel cl pid =>
+      match online st cl with
+      | None => (st, [])
+      | Some s =>
+          if memN pid (c_inq2 s) then
+            (set_sess st cl (mkC (c_ver s) true (c_persist s) (c_will s) (c_queue s) (c_alias s)
+                                 (filter (fun x => negb (pid =? x)) (c_inq2 s))),
+             [(cl, AAck T_PUBCOMP pid 0)])
+          else (st, [(cl, AAck T_PUBCOMP pid 146)])                                  (* 0x92 *)
       end
   | ASubscribe cl pid fs =>
       match online st cl with
@@ -205,17 +288,23 @@ Definition astep (obscure : bool) (st : ast) (o : aop) : ast * list (client * ae
           (mkAst (a_cl st) (add_sub cl gr (a_subs st)) (a_ret st) (a_delayed st),
            (cl, ASuback pid codes) :: replay_granted cl gr (a_ret st))
       end
-  | AInline topic payload rt => route st (mkM None topic payload 0 rt)
+  | AInline topic payload rt => route sel st (mkM None topic payload 0 rt)
   | ATick =>
-      let '(st', evs) := fire st (a_delayed st) in
+      let '(st', evs) := fire sel st (a_delayed st) in
       (mkAst (a_cl st') (a_subs st') (a_ret st') [], evs)
+  | AExpire =>
+      (* every session whose connection has ended is dropped with its subscriptions and in-flight messages *)
+      let gone := map fst (filter (fun e => negb (c_online (snd e))) (a_cl st)) in
+      (mkAst (filter (fun e => c_online (snd e)) (a_cl st)) (filter (fun e => negb (memb (fst e) gone)) (a_subs st))
+             (a_ret st) (a_delayed st), [])
   end.
 
-Fixpoint arun (obscure : bool) (st : ast) (ops : list aop) : ast * list (list (client * aev)) :=
+(* a history: every step with its own share-group oracle *)
+Fixpoint arun (obscure : bool) (st : ast) (ops : list ((bytes -> client -> bool) * aop)) : ast * list (list (client * aev)) :=
   match ops with
   | [] => (st, [])
-  | o :: r => let '(st1, evs) := astep obscure st o in
-              let '(st2, rest) := arun obscure st1 r in (st2, evs :: rest)
+  | (sel, o) :: r => let '(st1, evs) := astep obscure sel st o in
+                     let '(st2, rest) := arun obscure st1 r in (st2, evs :: rest)
   end.
 
 (* ---------- specification (from the property text) ---------- *)
@@ -227,9 +316,10 @@ Definition msg_ok (m : msg) : Prop :=
   | Some o => perm o (m_topic m) true = true /\ valid_pub_topic (m_topic m) = true
   | None => True
   end.
-(* a delivery to c is justified by a valid filter that c may read and that matches the topic *)
+(* a delivery to c is justified by a valid filter that c was permitted to subscribe to and whose
+   effective filter (behind $share/<group>/) matches the topic *)
 Definition justified (c : client) (m : msg) : Prop :=
-  exists f, valid_filter f = true /\ perm c f false = true /\ matches f (m_topic m) = true.
+  exists f, valid_filter f = true /\ perm c f false = true /\ matches (eff_of f) (m_topic m) = true.
 
 Definition deliveries_ok (evs : list (client * aev)) : Prop :=
   forall c m, In (c, ADeliver m) evs -> perm c (m_topic m) false = true /\ msg_ok m /\ justified c m.
@@ -269,7 +359,7 @@ Definition write_ok (tbl : acl_table) (clients : list bytes) (t p : bytes) : boo
 Definition has_sub (subs : list (bytes * bytes)) (c f : bytes) : bool :=
   existsb (fun e => beq_bytes (fst e) c && beq_bytes (snd e) f) subs.
 
-(* clause numbers: 1 read  2 write (forward, will, replay, resend)  3 retained store  4 refused subscription
+(* clause numbers: 1 read  2 write (forward, will, replay, resend, alias)  3 retained store  4 refused subscription
    5 unjustified delivery  6 invalid will topic admitted  7 invalid filter (0x8F / 0x80, nothing created) *)
 Definition amonitor (tbl : acl_table) (clients : list bytes) (obscure : bool) (ver : N)
            (prev_subs : list (bytes * bytes)) (s : astepobs) : N :=
@@ -279,23 +369,25 @@ Definition amonitor (tbl : acl_table) (clients : list bytes) (obscure : bool) (v
   else if existsb (fun e => negb (write_ok tbl clients (fst e) (snd e))) (ao_ret s) then 3
   else if existsb (fun e => negb (existsb (fun sb => beq_bytes (fst sb) (fst e) && valid_filter_spec (snd sb) &&
                                                     perm_of tbl (fst e) (snd sb) false &&
-                                                    topic_matches (snd sb) (fst (snd e))) (prev_subs ++ ao_subs s))) pubs then 5
+                                                    topic_matches (eff_filter (snd sb)) (fst (snd e))) (prev_subs ++ ao_subs s))) pubs then 5
   else
     match ao_op s with
     | ASubscribe cl pid fs =>
         let codes := flat_map (fun e => match snd e with XSuback _ cs => if beq_bytes (fst e) cl then cs else [] | _ => [] end) (ao_evs s) in
-        let fix chk (fs : list (bytes * N)) (cs : bytes) : N :=
+        let absent f := negb (has_sub (ao_subs s) cl f) && negb (has_sub (ao_clsubs s) cl f) in
+        (* a filter that is granted elsewhere in the same packet may of course be present *)
+        let granted_elsewhere f := existsb (fun fo => beq_bytes (fst fo) f && valid_filter_spec f && perm_of tbl cl f false
+                                                      && negb (snd (snd fo) && is_share f)) fs in
+        let fix chk (fs : list (bytes * (N * bool))) (cs : bytes) : N :=
           match fs, cs with
-          | (f, _) :: fr, c :: cr =>
+          | (f, (_, nl)) :: fr, c :: cr =>
               if negb (valid_filter_spec f) then
-                if (c =? (if ver <? 5 then 128 else 143)) && negb (has_sub (ao_subs s) cl f) && negb (has_sub (ao_clsubs s) cl f)
-                then chk fr cr else 7
+                if (c =? (if ver <? 5 then 128 else 143)) && absent f then chk fr cr else 7
+              else if nl && is_share f then chk fr cr                    (* protocol error 0x82: C07's business *)
               else if negb (perm_of tbl cl f false) then
-                if (c =? (if (ver <? 5) || obscure then 128 else 135)) && negb (has_sub (ao_subs s) cl f) && negb (has_sub (ao_clsubs s) cl f)
-                then chk fr cr else 4
+                if (c =? (if (ver <? 5) || obscure then 128 else 135)) && (absent f || granted_elsewhere f) then chk fr cr else 4
               else chk fr cr
-          | [], [] => 0
-          | _, _ => 0            (* no SUBACK (connection closed): nothing to judge here *)
+          | _, _ => 0            (* end, or no SUBACK (connection closed): nothing to judge here *)
           end in
         chk fs codes
     | AConnect cl _ _ (Some w) =>
@@ -323,8 +415,8 @@ Definition beq_oevt (v5 : bool) (a b : oevt) : bool :=
   | XClosed, XClosed => true
   | _, _ => false
   end.
-(* per connection the same events up to order (fan-out of several wills, retained replay and resend
-   follow Go map iteration) *)
+(* per client id the same events up to order (fan-out of several wills, retained replay and resend
+   follow Go map iteration; at a takeover the old and the new connection share the id) *)
 Fixpoint remove_first {A} (eq : A -> A -> bool) (x : A) (l : list A) : option (list A) :=
   match l with
   | [] => None
@@ -340,19 +432,38 @@ Definition xevs_of (cl : client) (evs : list (client * oevt)) : list oevt :=
 Definition aevs_match (ver_of : client -> N) (model obs : list (client * oevt)) : bool :=
   forallb (fun c => perm_eq (beq_oevt (ver_of c =? 5)) (xevs_of c model) (xevs_of c obs)) (map fst model ++ map fst obs).
 
+(* acknowledgements are compared leniently unless both the old and the new connection speak MQTT 5 *)
 Definition aver (st : ast) (o : aop) (c : client) : N :=
+  let cur := match assoc c (a_cl st) with Some s => c_ver s | None => 5 end in
   match o with
-  | AConnect cl ver _ _ => if beq_bytes c cl then ver else match assoc c (a_cl st) with Some s => c_ver s | None => 0 end
-  | _ => match assoc c (a_cl st) with Some s => c_ver s | None => 0 end
+  | AConnect cl ver _ _ => if beq_bytes c cl then (if (ver =? 5) && (cur =? 5) then 5 else 0) else cur
+  | _ => cur
   end.
 
 Definition ret_proj (ret : list (bytes * msg)) : list (bytes * bytes) := map (fun e => (fst e, m_payload (snd e))) ret.
-Definition subs_proj (subs : list (client * (bytes * N))) : list (bytes * bytes) := map (fun e => (fst e, fst (snd e))) subs.
+Definition subs_proj (subs : list subent) : list (bytes * bytes) := map (fun e => (fst e, se_filter e)) subs.
 
 Definition astep_matches (st st' : ast) (evs : list (client * aev)) (s : astepobs) : bool :=
   aevs_match (aver st (ao_op s)) (map proj_ev evs) (ao_evs s) &&
   same_set (ret_proj (a_ret st')) (ao_ret s) && same_set (subs_proj (a_subs st')) (ao_subs s) &&
   same_set (subs_proj (a_subs st')) (ao_clsubs s).
+
+(* the share-group oracle: every way of choosing one member per shared filter in the index *)
+Definition share_groups (subs : list subent) : list (bytes * list client) :=
+  fold_right (fun e acc =>
+                if is_share (se_filter e) then
+                  match assoc (se_filter e) acc with
+                  | Some ms => (se_filter e, fst e :: ms) :: remove_key (se_filter e) acc
+                  | None => (se_filter e, [fst e]) :: acc
+                  end
+                else acc) [] subs.
+Fixpoint choices (gs : list (bytes * list client)) : list (list (bytes * client)) :=
+  match gs with
+  | [] => [[]]
+  | (f, ms) :: r => flat_map (fun c => map (cons (f, c)) (choices r)) ms
+  end.
+Definition sel_of (ch : list (bytes * client)) : bytes -> client -> bool :=
+  fun f c => existsb (fun e => beq_bytes (fst e) f && beq_bytes (snd e) c) ch.
 
 (* ---------- parsing ---------- *)
 Definition as_will (v : val) : option (option will) :=
@@ -361,16 +472,20 @@ Definition as_will (v : val) : option (option will) :=
   | VL [VB t; VB p; VN q; r; d] => do r' <- as_bool r; do d' <- as_bool d; Some (Some (mkW t p q r' d'))
   | _ => None
   end.
+Definition as_fqn (v : val) : option (bytes * (N * bool)) :=
+  match v with VL [VB f; VN q; nl] => do nl' <- as_bool nl; Some (f, (q, nl')) | _ => None end.
 Definition as_aop (v : val) : option aop :=
   match v with
   | VL [VN 0; VB cl; VN ver; clean; w] => do c' <- as_bool clean; do w' <- as_will w; Some (AConnect cl ver c' w')
   | VL [VN 1; VB cl] => Some (ADisconnect cl)
   | VL [VN 2; VB cl] => Some (ANetClose cl)
-  | VL [VN 3; VB cl; VB t; VB p; VN q; r; VN pid] => do r' <- as_bool r; Some (APublish cl t p q r' pid)
-  | VL [VN 4; VB cl; VN pid; VL fs] => do fs' <- map_opt as_fq fs; Some (ASubscribe cl pid fs')
+  | VL [VN 3; VB cl; VB t; VB p; VN q; r; VN pid; VN al] => do r' <- as_bool r; Some (APublish cl t p q r' pid al)
+  | VL [VN 4; VB cl; VN pid; VL fs] => do fs' <- map_opt as_fqn fs; Some (ASubscribe cl pid fs')
   | VL [VN 5; VB t; VB p; r] => do r' <- as_bool r; Some (AInline t p r')
   | VL [VN 6] => Some ATick
   | VL [VN 7; VB cl] => Some (ADisconnectWill cl)
+  | VL [VN 8; VB cl; VN pid] => Some (APubrel cl pid)
+  | VL [VN 9] => Some AExpire
   | _ => None
   end.
 Definition as_oevt (v : val) : option oevt :=
@@ -398,8 +513,22 @@ Definition as_astepobs (v : val) : option astepobs :=
    acl = list of (client topic-or-filter write) that are permitted     step = (op events retained subs clientsubs) *)
 Definition op_client (o : aop) : client :=
   match o with
-  | AConnect c _ _ _ | ADisconnect c | ADisconnectWill c | ANetClose c | APublish c _ _ _ _ _ | ASubscribe c _ _ => c
+  | AConnect c _ _ _ | ADisconnect c | ADisconnectWill c | ANetClose c | APublish c _ _ _ _ _ _ | APubrel c _
+  | ASubscribe c _ _ => c
   | _ => []
+  end.
+
+Definition model_step (tbl : acl_table) (obscure : bool) (sel : bytes -> client -> bool) (st : ast) (o : aop) :=
+  astep (perm_of tbl) topic_matches valid_filter_spec is_share eff_filter obscure sel st o.
+
+(* the first share-group choice under which the model's step equals the observation *)
+Fixpoint find_choice (tbl : acl_table) (obscure : bool) (st : ast) (s : astepobs) (chs : list (list (bytes * client)))
+  : option ast :=
+  match chs with
+  | [] => None
+  | ch :: r =>
+      let '(st', evs) := model_step tbl obscure (sel_of ch) st (ao_op s) in
+      if astep_matches st st' evs s then Some st' else find_choice tbl obscure st s r
   end.
 
 Fixpoint arun_check (tbl : acl_table) (clients : list bytes) (obscure : bool) (st : ast) (prev : list (bytes * bytes))
@@ -407,17 +536,22 @@ Fixpoint arun_check (tbl : acl_table) (clients : list bytes) (obscure : bool) (s
   match steps with
   | [] => (0, 0, 0)
   | s :: r =>
-      let m := amonitor tbl clients obscure (aver st (ao_op s) (op_client (ao_op s))) prev s in
+      let ver := match ao_op s with
+                 | AConnect _ v _ _ => v
+                 | o => match assoc (op_client o) (a_cl st) with Some x => c_ver x | None => 0 end
+                 end in
+      let m := amonitor tbl clients obscure ver prev s in
       if negb (m =? 0) then (1, n, m)
       else
-        let '(st', evs) := astep (perm_of tbl) topic_matches valid_filter_spec obscure st (ao_op s) in
-        if negb (astep_matches st st' evs s) then (2, n, 0)
-        else arun_check tbl clients obscure st' (ao_subs s) (n + 1) r
+        match find_choice tbl obscure st s (choices (share_groups (a_subs st))) with
+        | None => (2, n, 0)
+        | Some st' => arun_check tbl clients obscure st' (ao_subs s) (n + 1) r
+        end
   end.
 
 Definition a_interesting (steps : list astepobs) : bool :=
   existsb (fun s => match ao_op s with
-                    | AConnect _ _ _ (Some _) | ASubscribe _ _ _ | APublish _ _ _ _ _ _ => true
+                    | AConnect _ _ _ (Some _) | ASubscribe _ _ _ | APublish _ _ _ _ _ _ _ => true
                     | _ => false end) steps.
 
 Definition acl_engine_gen (name : bytes) (v : val) : val :=
